@@ -11,4 +11,5 @@ Extraction "model.ml"
            imap_key kvs_get dbv_eqb dbv_cmp
   (* FileWal *) trace crash recover walrev_fixed walrev_pinned well_positioned
   (* ValueIndex *) store_db_value load_db_value store_kv load_kv remove_value remove_kv fresh_ix lookup
-                   is_value vi_index vi_type vi_size wf_value utf8_lossy.
+                   is_value vi_index vi_type vi_size wf_value utf8_lossy
+  (* OpenFile *) open_file value_as_bytes table_get alloc_limit og_fixed og_pinned.
